@@ -281,3 +281,41 @@ package codescan
 //@ loop 1 step (pth.Get != nil ==> vs_has(operations, pth.Get.ID)) && (pth.Post != nil ==> vs_has(operations, pth.Post.ID)) && (pth.Put != nil ==> vs_has(operations, pth.Put.ID)) && (pth.Patch != nil ==> vs_has(operations, pth.Patch.ID)) && (pth.Delete != nil ==> vs_has(operations, pth.Delete.ID)) && (pth.Head != nil ==> vs_has(operations, pth.Head.ID)) && (pth.Options != nil ==> vs_has(operations, pth.Options.ID))
 //@ loop 1 step pth.Options != nil ==> operations[pth.Options.ID] == pth.Options
 //@ loop 1 step vs_all(func(k string) bool { return old(vs_has(operations, k)) ==> vs_has(operations, k) })
+
+// ---- C16: the typable adapters write exactly the JSON kind and format they are given ----
+
+//@ func schemaTypable.Typed
+//@ props C16
+//@ safety
+//@ requires st.schema != nil
+//@ modifies st.schema
+//@ ensures len(st.schema.Type) == 1 && st.schema.Type[0] == tpe && st.schema.Format == format
+
+//@ func schemaTypable.Items
+//@ props C16
+//@ safety
+//@ requires st.schema != nil
+//@ ensures st.schema.Items != nil && st.schema.Items.Schema != nil
+//@ ensures len(st.schema.Type) == 1 && st.schema.Type[0] == "array"
+//@ ensures result == swaggerTypable(schemaTypable{st.schema.Items.Schema, st.level + 1})
+
+//@ func itemsTypable.Typed
+//@ props C16
+//@ safety
+//@ requires pt.items != nil
+//@ modifies pt.items
+//@ ensures pt.items.Type == tpe && pt.items.Format == format
+
+//@ func paramTypable.Typed
+//@ props C16
+//@ safety
+//@ requires pt.param != nil
+//@ modifies pt.param
+//@ ensures pt.param.Type == tpe && pt.param.Format == format
+
+//@ func responseTypable.Typed
+//@ props C16
+//@ safety
+//@ requires ht.header != nil
+//@ modifies ht.header
+//@ ensures ht.header.Type == tpe && ht.header.Format == format
